@@ -416,7 +416,7 @@ def unit_inverse(ctx):
 # --------------------------------------------------------------------------
 # unit labels
 
-LABELS = ["default", "custom", "custom-empty-mapping", "custom-permuted", "custom-permuted-keyorder", "one-unmapped",
+LABELS = ["default", "custom", "custom-empty-mapping", "custom-permuted", "custom-permuted-keyorder", "custom-permuted-axisorder", "one-unmapped",
           "scalar-named"]
 
 
@@ -440,6 +440,11 @@ def _labels(kind, nv, dims):
         if nv != ndim or nv == 1:
             return None
         return names, dict(reversed([(v, dims[(i + 1) % ndim]) for i, v in enumerate(names)]))
+    if kind == "custom-permuted-axisorder":
+        # keys listed in the order of the axes they point to: list(mapping.values()) == dims, pairing still cyclic
+        if nv != ndim or nv == 1:
+            return None
+        return names, dict(sorted([(v, dims[(i + 1) % ndim]) for i, v in enumerate(names)], key=lambda kv: list(dims).index(kv[1])))
     if kind == "one-unmapped":
         if nv < 2:
             return None
